@@ -72,16 +72,20 @@ full = identical, suffix `d` = `n = d` or `n` ends with `"." ++ d` (a pattern st
 proper sub-domains), keyword = substring.  `rx` lists the regex patterns that match `n` (oracle: Go's
 `regexp`).  `full`/`suffix` patterns containing a character outside `ValidDomainChars` and `keyword`
 patterns with a character outside the automaton's alphabet are skipped by `AddSet` (warning), i.e.
-never match; the automaton never reports the empty keyword. -/
+never match; the automaton never reports the empty keyword.  Since b65c54c the patterns are lower-cased
+first (an upper-case pattern matches like its lower-case spelling). -/
 def patMatch (rx : List String) (key : DKey) (pat : String) (n : List Char) : Bool :=
-  let p := pat.toList
+  -- fix b65c54c: full / suffix / keyword patterns are lower-cased by `AddSet` like the queried name
+  let p := lowerStr pat.toList
   let q := trimDollar ('^' :: n)
   match key with
   | .full => p.all validDomainChar && ('^' :: p).isSuffixOf q
   | .suffix =>
     p.all validDomainChar &&
       (if p.head? == some '.' then p.isSuffixOf q else (('.' :: p).isSuffixOf q || ('^' :: p).isSuffixOf q))
-  | .keyword => p.all validAcChar && !p.isEmpty && isInfixB p (('^' :: (n ++ ['$'])).map acNorm)
+  -- fix 2dcb060: a keyword containing the head / tail mark `^` / `$` is skipped like other bad patterns
+  | .keyword => p.all (fun c => validAcChar c && c != '^' && c != '$') && !p.isEmpty &&
+      isInfixB p (('^' :: (n ++ ['$'])).map acNorm)
   | .regex => rx.contains pat
 
 def domSetMatch (rx : List String) (key : DKey) (pats : List String) (n : List Char) : Bool :=
